@@ -75,7 +75,8 @@ def pick_spec(rng, tier, for_c17=False):
         return small_fixed_specs()[0], 'fixed:chain'
     guards = findings.active_guards('C04')
     cfg = {'max_types': 5, 'max_assocs': 5, 'expr_depth': rng.choice([1, 2, 3]),
-           'composite_ttc': True, 'ttc_factors': 2 if 'ttc_three_factors' in guards else 3}
+           'composite_ttc': True, 'ttc_factors': 2 if 'ttc_three_factors' in guards else 3,
+           'allow_same_signature_assocs': not for_c17}
     for _ in range(20):
         spec = gen_spec(rng, cfg)
         if spec['associations']:
@@ -148,6 +149,10 @@ class SourceWorld(BaseWorld):
         self.rejected_damages = 0
         self.included_damages = 0
         self.cwd0 = os.getcwd()
+        sigs = [(a['name'], a['leftAsset'], a['rightAsset']) for a in self.spec['associations']]
+        self.same_signature_assocs = len(set(sigs)) != len(sigs)
+        if self.same_signature_assocs:
+            self.count('probe:same_signature_associations')
         if desc.get('source') == 'corelang':
             self.count('probe:corelang')
         # the printer must follow the grammar: 0 parser errors on what it prints
@@ -159,10 +164,25 @@ class SourceWorld(BaseWorld):
             self._compile_single(text)
         else:
             self.files = self._write_layout(desc['layout'], 'prog')
-            # the undamaged program must compile
-            o = self._compile(os.path.join(self.dir, 'prog', 'f0.mal'))
+            # the undamaged program must compile - and it must be read through the seam
+            # (self-check of the harness; later reads may legitimately be skipped by the
+            # code under test, e.g. by a cache, and are judged, not assumed)
+            used = {'n': 0}
+            real = self.comp.FileStream
+
+            def counting(path, encoding='ascii', errors='strict'):
+                used['n'] += 1
+                return real(path, encoding, errors)
+            self.comp.FileStream = counting
+            try:
+                o = self._compile(os.path.join(self.dir, 'prog', 'f0.mal'))
+            finally:
+                self.comp.FileStream = real
             if o.raised:
                 raise SetupRejected('c17:valid program does not compile:' + o.exc_name())
+            if not used['n']:
+                from .engine import HarnessError
+                raise HarnessError('the FileStream seam of the compiler is not used any more')
 
     def close(self):
         try:
@@ -331,6 +351,10 @@ class SourceWorld(BaseWorld):
                 os.chdir(self.cwd0)
                 root = os.path.join(d, names[0])
             how = op['how']
+            if how == 'from_mal_spec' and self.same_signature_assocs:
+                # the language graph keeps only the first of two associations with one
+                # name between the same types (not the compiler's business, and not C04's)
+                how = 'compiler'
             if how == 'reuse':
                 # one compiler instance, two roots in the same directory
                 c = self.comp.MalCompiler()
@@ -435,9 +459,8 @@ class SourceWorld(BaseWorld):
             self.comp.FileStream = real
         if fired['n']:
             self.count('fault:damaged_read_' + op['kind'])
-        if not fired['n'] and op['file'] == 0:
-            from .engine import HarnessError
-            raise HarnessError('the FileStream seam was not used for the root file')
+        if not fired['n']:
+            self.count('probe:damaged_file_was_not_read')
         if nerr == 0:
             self.count('out:benign_for_grammar')
             self.count('out:benign_' + ('raised' if o.raised else 'compiled'))
@@ -478,10 +501,10 @@ class SourceWorld(BaseWorld):
             self.comp.FileStream = real
         if name not in seen:
             return ['damaged_read', 'not_in_closure', '']
-        if not fired['n']:
-            from .engine import HarnessError
-            raise HarnessError('the FileStream seam was not used for ' + name)
-        self.count('fault:unreadable_file_EIO')
+        if fired['n']:
+            self.count('fault:unreadable_file_EIO')
+        else:
+            self.count('probe:damaged_file_was_not_read')
         self.rejected_damages += 1
         if op['file'] > 0:
             self.included_damages += 1
